@@ -531,7 +531,7 @@ package engine
 // updateIncremental merges the parsed rules into the builder's rule set WITHOUT writing the published container (C07-A):
 // the result is a fresh container holding old (+) parsed
 //@ func updateIncremental
-//@   props C07 C08 C16 C04
+//@   props C07 C08 C16 C04 C05 C14
 //@   arith int unchecked
 //@   requires kc != nil && rb != nil && wfParsed(kc) && wfKc(rb.Kc)
 //@   ghost OLD = rb.Kc
@@ -539,7 +539,7 @@ package engine
 //@   oncall tool.BinarySearch
 //@     after A0 := arr(arg0)
 //@   ensures [C07] freshcontainer: fresh(rb.Kc)
-//@   ensures [C08,C04,C16] merged: wfKc(rb.Kc)
+//@   ensures [C08,C04,C16,C05,C14] merged: wfKc(rb.Kc)
 //@   ensures [C08] view: (forall k: string :: (k in rb.Kc.RuleEntities) <==> ((k in OLD.RuleEntities) || (k in kc.RuleEntities))) && (forall k: string :: (k in kc.RuleEntities) ==> rb.Kc.RuleEntities[k] == kc.RuleEntities[k]) && (forall k: string :: (k in OLD.RuleEntities) && !(k in kc.RuleEntities) ==> rb.Kc.RuleEntities[k] == OLD.RuleEntities[k])
 //@   modifies rb.Kc
 //@   panicsafe
